@@ -83,3 +83,15 @@ Definition show_spans (s : str) : str :=
   | ParseOk ss => [79; 75; 32] ++ join_with [32] (map show_span (flat_map (fun st => all_spans (g_stmt st)) ss))
   | _ => [69; 82; 82]
   end.
+
+(** ** Compile *)
+From PQL Require Export Model.Compile.
+
+Definition show_compile (params : list (str * str)) (s : str) : str :=
+  match compile params s with
+  | COk ps => [79; 75; 32] ++ hex_of (render ps)
+  | CParseErr e => [69; 82; 82; 32] ++ join_with [44] (map (show_pos s) e)
+  | CErr p => [69; 82; 82; 32] ++ show_pos s (mkErr p false false)
+  | CFuel => [70; 85; 69; 76]
+  | CInternal => [73; 78; 84; 69; 82; 78; 65; 76]
+  end.
